@@ -800,11 +800,25 @@ def read_cache_entry(
         name, _consumed = _decompress_path_from_stream(f, previous_path)
     else:
         # Versions < 4: regular name reading
-        name = f.read(flags & FLAG_NAMEMASK)
+        name_len = flags & FLAG_NAMEMASK
+        name = f.read(name_len)
+        name_end = f.tell()
+        if name_len == FLAG_NAMEMASK:
+            # The 12-bit length field is saturated: the name is at least
+            # 0xFFF bytes long and ends at the NUL that starts the padding.
+            rest = bytearray()
+            while True:
+                char = f.read(1)
+                if not char:
+                    raise ValueError("Unterminated name in index entry")
+                if char == b"\0":
+                    break
+                rest += char
+            name += bytes(rest)
+            name_end += len(rest)
 
-    # Padding:
-    if version < 4:
-        real_size = (f.tell() - beginoffset + 8) & ~7
+        # Padding:
+        real_size = (name_end - beginoffset + 8) & ~7
         f.read((beginoffset + real_size) - f.tell())
 
     return SerializedIndexEntry(
@@ -843,7 +857,9 @@ def write_cache_entry(
         # Version 4: use compression but set name_len to actual filename length
         # This matches how C Git implements index v4 flags
         compressed_path = _compress_path(entry.name, previous_path)
-    flags = len(entry.name) | (entry.flags & ~FLAG_NAMEMASK)
+    # The name length field saturates at 0xFFF; longer names are found by
+    # their NUL terminator when reading.
+    flags = min(len(entry.name), FLAG_NAMEMASK) | (entry.flags & ~FLAG_NAMEMASK)
 
     if entry.extended_flags:
         flags |= FLAG_EXTENDED
